@@ -173,6 +173,20 @@ func DefFlavor(
 	if !nf.noVanilla {
 		nf.inheritFlavor(&vanilla)
 	}
+	// vanilla-flavor is always last in the precedence order. Method
+	// combinations from vanilla-flavor picked up through a component must
+	// not shadow the methods of the components that follow.
+	for _, m := range nf.methods {
+		for i, c := range m.Combinations {
+			if c.From == &vanilla && i < len(m.Combinations)-1 {
+				combos := make([]*slip.Combination, 0, len(m.Combinations))
+				combos = append(combos, m.Combinations[:i]...)
+				combos = append(combos, m.Combinations[i+1:]...)
+				m.Combinations = append(combos, c)
+				break
+			}
+		}
+	}
 	nf.Precedence = make([]slip.Symbol, 0, len(nf.inherit)+2)
 	nf.Precedence = append(nf.Precedence, slip.Symbol(nf.name))
 	for _, f := range nf.inherit {
